@@ -2,8 +2,10 @@ package sym
 
 import (
 	"fmt"
+	"go/token"
 	"go/types"
 	"math"
+	"math/big"
 	"strings"
 
 	"golang.org/x/tools/go/ssa"
@@ -327,8 +329,54 @@ func (e *Exec) constFloat(t *Term) float64 {
 	return f
 }
 
+// cubeRoot returns a witness c with c^3 = t (exact real mode). For a ratio n/d the
+// witness satisfies c^3 * d = n.
+func (e *Exec) cubeRoot(t *Term) *Term {
+	if t.IsConst() {
+		f, _ := t.R.Float64()
+		return e.floatConst(math.Cbrt(f), 64)
+	}
+	if c, ok := e.cbrts[t.ID]; ok {
+		return c
+	}
+	if e.cbrts == nil {
+		e.cbrts = map[int]*Term{}
+	}
+	c := e.B.Fresh("cbrt", RealSort)
+	n, d := e.B.NumDen(t)
+	c3 := e.B.RBin(ORMul, c, e.B.RBin(ORMul, c, c))
+	e.assumeDef(e.B.Eq(e.B.RBin(ORMul, c3, d), n))
+	e.cbrts[t.ID] = c
+	e.noteAssumption("math.Pow(x, 1/3) and math.Pow(x, 3) on symbolic arguments are exact (cube root as a witness c with c^3 = x); the accuracy of the platform's Pow (about 1e-16 relative) is outside the claim")
+	return c
+}
+
 // symMath handles math functions on symbolic arguments (real modes only).
 func (e *Exec) symMath(name string, args []Value) Value {
+	if name == "Pow" && e.Cfg.Float != FloatFP {
+		x, y := args[0].(*Term), args[1].(*Term)
+		if y.IsConst() {
+			yf, _ := y.R.Float64()
+			if yf == 3 {
+				if x.Op == ORatio {
+					n, d := e.B.NumDen(x)
+					cube := func(p *Term) *Term { return e.B.RBin(ORMul, p, e.B.RBin(ORMul, p, p)) }
+					return e.B.Ratio(cube(n), cube(d))
+				}
+				return e.B.RBin(ORMul, x, e.B.RBin(ORMul, x, x))
+			}
+			if yf == 1.0/3.0 {
+				// obligation: the base is positive here (else math.Pow returns NaN)
+				zero := e.B.RealConst(new(big.Rat))
+				neg := e.floatBinop(token.LEQ, 64, x, zero, nil).(*Term)
+				if r := e.check(neg); r != Unsat {
+					e.recordViolation("nan", "math.Pow(x, 1/3) with x <= 0", "a non-positive base reaches the cube root (NaN for negative x)", neg)
+					e.assume(e.B.Not(neg))
+				}
+				return e.cubeRoot(x)
+			}
+		}
+	}
 	if e.mathHook != nil {
 		if v, ok := e.mathHook(e, name, args); ok {
 			return v
